@@ -228,7 +228,10 @@ func mutants(m *msggen.Message, r *rand.Rand, perKind int) []mutant {
 	}
 	for _, p := range pick(c) {
 		f := clone(fs)
-		f[p.idx].Val = core.Pick(r, "abc", "1x", "12:00", "+")
+		f[p.idx].Val = core.Pick(r, "abc", "1x", "12:00", "+", "-", "1-", "--1", "1 1")
+		if isIntish(p.node.M.Type) && r.Intn(4) == 0 {
+			f[p.idx].Val = core.Pick(r, "99999999999999999999999999", "18446744073709551617", "-", "-9223372036854775809") // no integer of the machine has this value
+		}
 		out = append(out, mutant{kind: "bad-format", fields: f, mustWhen: dictReject, accept: []pair{{6, p.node.Tag}}})
 	}
 	// 5. enum violation (format-valid for the declared type)
